@@ -722,6 +722,21 @@ func (g *clientGen) fixedCases() []KCase {
 				{K: "getstatus", Plans: []simkernel.Plan{{Items: append(append(append([]simkernel.Item{}, tr...), g.ack(0)), append(append([]simkernel.Item{g.event()}, tr...), g.ownMsg(1000, g.bytesN(44), 0))...)}}}}, after...)})
 		}
 	}
+	// the same when every receive call takes a while: 9 failures of 70 ms each, 4 of 260 ms, 2 of 600 ms
+	for _, sl := range []struct{ k, ms int }{{9, 70}, {4, 260}, {2, 600}} {
+		var tr []simkernel.Item
+		for i := 0; i < sl.k; i++ {
+			tr = append(tr, simkernel.Item{K: "eagain"})
+		}
+		after := []KOp{{K: "setenabled", B: true, WM: 1, Plans: []simkernel.Plan{{Items: []simkernel.Item{g.ack(0)}}}}}
+		if g.ctx.Prop == "C17" {
+			out = append(out, KCase{Kind: "history", BufLen: 64, RecvDelayMs: sl.ms, Ops: append([]KOp{
+				{K: "setratelimit", V: 7, WM: 2, Plans: []simkernel.Plan{{Items: append(append([]simkernel.Item{}, tr...), g.ack(0))}}}, {K: "wait"}}, after...)})
+		} else {
+			out = append(out, KCase{Kind: "history", BufLen: 64, RecvDelayMs: sl.ms, Ops: append([]KOp{
+				{K: "addrule", Rule: hex.EncodeToString(g.bytesN(40)), Plans: []simkernel.Plan{{Items: append(append([]simkernel.Item{}, tr...), g.ack(17))}}}}, after...)})
+		}
+	}
 	// status replies whose fields hold small numbers (version-like values, flags), one field at a time, at the
 	// lengths of the historical layouts
 	for _, n := range []int{32, 36, 40, 44, 48} {
